@@ -14,7 +14,11 @@ object get_keep () { return keep; }
 object get_keepa () { return keepa[0]; }
 object get_keepm () { return keepm["k"]; }
 
+void c08_run (string key, mixed arg);
+void run (string key, mixed arg);
 #include "/c08/ops.h"
+
+void c08_run (string key, mixed arg) { run (key, arg); }
 
 void run (string key, mixed arg) {
   string s = master()->next_script (oid + ":" + key);
